@@ -43,7 +43,7 @@ func hashOf(text string) (string, *config.Config, error) {
 }
 
 func recC16() *vkit.Recorder {
-	r := vkit.Rec("C16", "exploration", "rapid-generated configurations from a grammar (global, rule files, alerting, remote read/write with credentials, 1-4 jobs with auth/TLS/relabeling/five SD kinds) rendered in a generated formatting style; metamorphic oracle: hash(neutral(c)) == hash(c) for re-formatting (indent, quoting, key order, comments, flow lists) and external-label changes, hash(edit(c)) != hash(c) for a catalogue of ~90 single-setting edits each verified to change the loaded config (deep comparison incl. regexes and secrets); the hash is also recomputed in fresh child processes, read back from a real sidecar, and a real coordinator cycle must treat a sidecar as in sync iff it runs the same content; non-trivial = every case with >=1 effective edit; distinct = digest of (config, style, edits)")
+	r := vkit.Rec("C16", "exploration", "rapid-generated configurations from a grammar (global, rule files, alerting, remote read/write with credentials, 1-4 jobs with auth/TLS/relabeling/five SD kinds) rendered in a generated formatting style; metamorphic oracle: hash(neutral(c)) == hash(c) for re-formatting (indent, quoting, key order, comments, flow lists) and external-label changes, hash(edit(c)) != hash(c) for a catalogue of ~90 single-setting edits each verified to change the loaded config (deep comparison incl. regexes and secrets); refused reloads from a file leave content, hash and handed-out ConfigInfo objects untouched and the coordinator pushes the accepted content; after an old -> new reload every job's scrape client presents the credentials a fresh process presents; the hash is also recomputed in fresh child processes, read back from a real sidecar, and a real coordinator cycle must treat a sidecar as in sync iff it runs the same content; non-trivial = every case with >=1 effective edit; distinct = digest of (config, style, edits)")
 	r.Assume("hash collisions (2^-64) are ignored; writing a default value explicitly is not used as a neutral transformation (the statement promises insensitivity only to external labels and pure formatting)")
 	return r
 }
